@@ -270,7 +270,9 @@ def check_refine(acc, q, label, case):
 def regular_groups(tier):
     G = list(testgen.GUARDS_STATIC)
     tests = [{"sig": "uint256,uint256", "shape": "single", "guards": [g], "fails": ["panic1"]} for g in G]
-    pairs = [("x*y==6", "x/y==3"), ("x%y==2", "x sdiv y==-2"), ("addmod(x,y,7)==3", "mulmod(x,7,y)==3"), ("x==s", "x*y==s"), ("keccak(x)==keccak(5)", "x+y==1"), ("x smod y==0", "mulmod(x,y,7)==3"), ("x**y==8", "addmod(x,7,y)==3")]
+    pairs = [("x*y==6", "x/y==3"), ("x%y==2", "x sdiv y==-2"), ("addmod(x,y,7)==3", "mulmod(x,7,y)==3"), ("x==s", "x*y==s"), ("keccak(x)==keccak(5)", "x+y==1"), ("x smod y==0", "mulmod(x,y,7)==3"), ("x**y==8", "addmod(x,7,y)==3"),
+             # two abstractions of one family (different widths / operators) in one query: every one of them must be refined
+             ("x*y==6", "mulmod(x,y,7)==3"), ("addmod(x,y,7)==3", "mulmod(x,y,7)==3"), ("x/y==3", "x%y==2"), ("x sdiv y==-2", "x smod y==0")]
     if tier == "thorough":
         pairs = [(a, b) for a in G for b in G if a != b]
     tests += [{"sig": "uint256,uint256", "shape": "nested", "guards": [a, b], "fails": ["assert"]} for a, b in pairs]
@@ -416,8 +418,54 @@ def check_shared_history(acc, order, cache):
     acc.state(label)
 
 
+# ---------------------------------------------------------------------------
+# a cheatcode that returns several values forks on the literal condition `true`: each reply's path keeps its own constraints
+# ---------------------------------------------------------------------------
+
+
+def check_createcalldata(acc, cache):
+    """check_cc(x): d = svm.createCalldata("Tgt"); if d is a call of the i-th function of Tgt and x == 100 + i: fail.
+    Ground truth: one counterexample per non-view function of Tgt, with x = 100 + i (every reply's failing path is feasible)."""
+    from props.c14_cheats import enc_call
+
+    tgt = invgen.mk_target("Tgt", ["inc", "set", "step"])
+    fns = [sg for sg in tgt.funcs if sg not in tgt.views]
+    x = e2e.arg(0)
+    body = [("sizeof", "cc"), ("offsetof", "cc"), ("push", 0x80), "CODECOPY", "PUSH0", "PUSH0", ("sizeof", "cc"), ("push", 0x80), "PUSH0", ("pushn", 20, e2e.SVM), ("push", 0xFFFFFF), "CALL", "POP",
+            "RETURNDATASIZE", "PUSH0", ("push", 0x200), "RETURNDATACOPY"]
+    for i, sg in enumerate(fns):
+        body += e2e.if_then([("push", 0x240), "MLOAD", ("push", 224), "SHR", ("pushn", 4, e2e.sel(sg)), "EQ"], e2e.if_then(x + [("push", 100 + i), "EQ"], e2e.panic(1), f"p{i}"), f"s{i}")
+    body += ["STOP", ("data", "cc", enc_call("createCalldata(string)", ["Tgt"]))]
+    c = e2e.Contract("CC", {"setUp()": ["STOP"], "check_cc(uint256)": body})
+    opts = {"solver": "z3", "solver_timeout_assertion": "10s"}
+    if cache:
+        opts["cache_solver"] = True
+    label = f"createCalldata:cache={int(cache)}"
+    case = {"kind": "cc", "cache": cache}
+    seams.start()
+    try:
+        rr = e2e.run_contract(c, options=opts, others=[tgt])
+    finally:
+        smt2, dumps = seams.stop()
+    acc.count("contracts")
+    if rr.exception is not None or len(rr.results) != 1:
+        acc.violation(f"crash:{label}", f"{label}: run_contract gave {rr.exception!r}", case)
+        return
+    for conds, cch, q, sliced in smt2:
+        if not check_query(acc, conds, cch, q, label, case):
+            return
+    got = sorted(v.value for m in rr.results[0].models or [] if m.is_valid for k, v in m.model.items() if k.startswith("p_a0_uint256"))
+    want = [100 + i for i in range(len(fns))]
+    acc.outcome(("cc", cache, tuple(got)))
+    if got != want:
+        acc.violation(f"replies:{label}", f"{label}: createCalldata(\"Tgt\") has {len(fns)} replies and each one's failing path (x == 100 + i) is feasible; halmos reports counterexamples for x in {got}, expected {want}: "
+                      "the query of a reply's path does not equal that path's own constraints", case)
+        return
+    acc.state(label)
+
+
 def shards(tier, seed):
-    out = []
+    out = [{"kind": "cc", "payload": None, "cache": False, "solver": "z3"}, {"kind": "cc", "payload": None, "cache": True, "solver": "z3"}]
     orders = list(itertools.permutations(SHARED_TESTS, 2)) + [tuple(SHARED_TESTS), tuple(reversed(SHARED_TESTS))]
     if tier == "thorough":
         orders = list(itertools.permutations(SHARED_TESTS, 2)) + list(itertools.permutations(SHARED_TESTS, 4))
@@ -442,6 +490,8 @@ def run_shard(shard):
     acc = Acc(max_violations=30)
     if shard["kind"] == "shared":
         check_shared_history(acc, shard["payload"], shard["cache"])
+    elif shard["kind"] == "cc":
+        check_createcalldata(acc, shard["cache"])
     else:
         run_group(acc, shard["kind"], shard["payload"], shard["cache"], shard["solver"])
     return acc.result()
@@ -474,6 +524,8 @@ def replay(case):
     acc = Acc()
     if case["kind"] == "shared":
         check_shared_history(acc, case["order"], case["cache"])
+    elif case["kind"] == "cc":
+        check_createcalldata(acc, case["cache"])
     else:
         run_group(acc, case["kind"], case["payload"], case["cache"], case["solver"])
     v = acc.result()["violations"]
